@@ -506,7 +506,7 @@ def handler_failures(events, excs=None):
             continue
         cj = set(e.guard.args) if isinstance(e.guard, Op) and e.guard.op == "and" else {e.guard}
         for exc, h in starts.items():
-            if (excs is None or exc in excs) and exc in cj and e.seq > h.seq and e.func == h.func:
+            if (excs is None or exc in excs) and exc in cj and e.seq > h.seq and (e.func == h.func or h.func in getattr(e, "stack", ())):
                 out.append((e, exc))
                 break
     return out
